@@ -87,6 +87,7 @@ type ProduceEvent struct {
 	Raw      []byte
 	Batches  []sarama.VerifBatch
 	Verdicts []Verdict
+	Step     int // number of decisions taken when the request was answered (index into the trace)
 }
 
 type Verdict struct {
@@ -134,6 +135,9 @@ type Cluster struct {
 	// AbortedOrder permutes the aborted-transaction index of a fetch response (any order is legal)
 	AbortedOrder func([][2]int64) [][2]int64
 	BadRequests  []string // requests that did not decode
+	RefetchLoop  string   // set when the client re-fetches the same data forever (see fetchVariants)
+	lastFetchKey string
+	sameFetch    int
 	Fetched      []FetchEvent
 	Produced     []ProduceEvent
 	Requests     []string // kinds of all requests seen, in arrival order per decision
